@@ -147,7 +147,7 @@ func (m *xdsResourceManager) Get(ctx context.Context, rType xdsresource.Resource
 	if ok {
 		return res, nil
 	}
-	verifYield(1, rType, rName)
+	verifYield(ctx, 1, rType, rName)
 
 	// Fetch resource via client and wait for the update
 	m.mu.Lock()
@@ -166,11 +166,11 @@ func (m *xdsResourceManager) Get(ctx context.Context, rType xdsresource.Resource
 	// Set fetch timeout
 	ctx, cancel := context.WithTimeout(ctx, m.opts.XDSSvrConfig.GetFetchXDSTimeout())
 	defer cancel()
-	verifYield(2, rType, rName)
+	verifYield(ctx, 2, rType, rName)
 
 	select {
 	case <-nf.ch:
-		verifYield(3, rType, rName)
+		verifYield(ctx, 3, rType, rName)
 		// error in the notifier
 		if nf.err != nil {
 			return nil, fmt.Errorf("[XDS] manager, fetch %s resource[%s] failed, error=%s",
@@ -179,7 +179,7 @@ func (m *xdsResourceManager) Get(ctx context.Context, rType xdsresource.Resource
 		res, _ = m.getFromCache(rType, rName)
 		return res, nil
 	case <-ctx.Done():
-		verifYield(4, rType, rName)
+		verifYield(ctx, 4, rType, rName)
 		// remove the notifier if timeout.
 		m.mu.Lock()
 		delete(m.notifierMap[rType], rName)
